@@ -67,11 +67,18 @@ CHECKS = {
    note="noaddresses is always set (local interface addresses are environment-dependent). Not judged: re-requesting although a valid ticket is cached. Known finding: authenticator crealm taken from the presented ticket's realm (multi-hop cross-realm and renewal of other-realm service tickets fail). The default schedule only; interleavings are C11's subject.",
    technique="explicit-state BFS over operation histories on the real client with canonical-state deduplication, against a simulated KDC (request validation + issue log)",
    engine="bfs+sched"),
+ "C11": dict(
+   category="model_checking",
+   text="Stateless exploration (own cooperative scheduler, iterative preemption bounding 0,1,2; 3 in the thorough tier) of every interleaving of 15 (20) scenarios of 2-3 threads on one real client.Client and its Config against the simulated KDC: two service-ticket requests for the same / different / other-realm SPNs, with and without a prior login; ticket vs login; login vs login; ticket / login vs destroy; ticket / login / destroy vs the auto-renewal goroutine woken by the clock; GetKDCs / GetKpasswdServers from two threads and against a ticket request with 2-3 KDCs under every outcome of the random server order. Scheduling points: every sync.Mutex/RWMutex/Once/WaitGroup acquisition (RWMutex with writer preference), channel send/receive/select, timer, clock advance and network exchange of the rewritten sources. Invariants per schedule: no panic, no deadlock (blocked harness thread or library goroutine blocked on a lock / channel send), no livelock (horizon), operations succeed unless a destroy is in the scenario, every returned (ticket, key) pair and every cached entry / session after quiescence was issued together by the KDC, requests stay well-formed, address lookups return a permutation and leave the Config deep-equal. Sharded over worker processes on first-level subtrees. A separate free-running -race build runs the same scenario bodies (15 repetitions each; 150 thorough) for unsynchronised accesses.",
+   design="DESIGN.md 2/C11",
+   note="The property's 2-16 goroutines and random repetitions are replaced by exhaustive schedules of 2-3 threads within a preemption bound. The -race pass is a dynamic complement (the cooperative scheduler's hand-offs hide races from the detector); reports whose racing access lies in harness or shim code are not counted. Known finding: Client.Destroy replaces cl.Credentials unsynchronised.",
+   technique="stateless model checking of the implementation: exhaustive schedule enumeration under a controlled scheduler with iterative preemption bounding, plus a free-running race-detector pass",
+   engine="sched+race"),
  "C12": dict(
    category="fault_enumeration",
    text="Every assignment of a behaviour from {answers, refuses, closes early, silent, answers KRB-ERROR, response-too-big on UDP / partial reply on TCP} to each (KDC, transport) endpoint for 1, 2 and 3 configured KDCs (36 + 1,296 + 46,656 assignments) x udp_preference_limit {1, below the request size, above it} x the orders the random server ordering can produce (all for 1-2 KDCs; the default order for 3 KDCs in the quick tier and all 36 in the thorough tier) is run through the real Client.sendToKDC over the in-memory network. Clauses: success returns exactly the reply of an answering endpoint on a permitted transport (never empty); a surfaced KRBError carries a code some endpoint sent; with no KRB-ERROR endpoint, success iff some permitted endpoint answers; the first responding KDC of the first transport decides (too-big on UDP defers to TCP); connection attempts are bounded by twice the number of endpoints. A reduced set (2 KDCs, 4 behaviours) is also run through Client.Login with the simulated KDC behind the answering endpoints.",
    design="DESIGN.md 2/C12",
-   note="Endpoint fidelity (UDP datagram = one read, TCP = stream with 4-byte prefix, deadline = timeout error without waiting) is an assumption of the in-memory network shim. Random order is scripted, not sampled.",
+   note="Endpoint fidelity (UDP datagram = one read, TCP = stream with 4-byte prefix; read/write deadlines are judged against the virtual clock and a silent endpoint advances it to the read deadline) is an assumption of the in-memory network shim. Random order is scripted, not sampled.",
    technique="exhaustive enumeration of fault assignments x configurations on the real fail-over code over a simulated network",
    engine="enum"),
  "C13": dict(
